@@ -340,6 +340,11 @@ func verifyFunction(u *Universe, fi *FuncInfo, c *Contract) (obls []*Obligation,
 		x.resultNames = append(x.resultNames, name)
 		if rv.Name() != "" && rv.Name() != "_" {
 			st.vars[rv] = u.zero(u.sortOf(rv.Type()))
+			if srt := u.sortOf(rv.Type()); c.Options["slice-elems"] && isSliceSort(srt) && srt != SStr {
+				// the zero value of a slice has no elements
+				el := u.sliceElem(srt)
+				st.assume(Eq(mk("elems_"+mangle(srt), arraySort(el, SBool), st.vars[rv]), &Term{Op: "const-array", Sort: arraySort(el, SBool), Args: []*Term{False}}))
+			}
 		}
 	}
 	// package-level struct variables are allocated, non-nil and pairwise distinct objects; package-level
